@@ -18,7 +18,7 @@ def run(ctx):
     model = build_model()
     impl = build_impl()
     setup_builtin(impl)
-    n = 700 if ctx.tier == "quick" else 10000
+    n = 2500 if ctx.tier == "quick" else 10000
     raw = []
     for name, text in corpus_texts("C16"):
         for adds in (["Int"], ["Float", "ID"], ["ID", "Float", "ID", "String"], []):
